@@ -65,7 +65,8 @@ def _alias_expr(func, cfg, nid, v, depth):
         ra = root_attr(v, func.self_name) if func.self_name else None
         if ra:
             # boolean-mask / fancy indexing copies; plain index and slices are views.
-            # Without types we treat every subscript of state as a potential view.
+            if isinstance(v, ast.Subscript) and _index_makes_copy(cfg, nid, v.slice):
+                return None
             return 'self.%s' % ra[0]
         base = v
         while isinstance(base, (ast.Attribute, ast.Subscript)):
@@ -86,6 +87,36 @@ def _alias_expr(func, cfg, nid, v, depth):
                                                                  'squeeze', 'transpose'):
             return _alias_expr(func, cfg, nid, v.func.value, depth)
     return None
+
+
+def _index_makes_copy(cfg, nid, sl):
+    """Boolean-mask or integer-array (fancy) indexing returns a copy: the index is a
+    comparison / negation, or a local defined as one, or as an index array
+    (flatnonzero, argsort, where, nonzero, arange)."""
+    def is_mask(e, depth=0):
+        if isinstance(e, (ast.Compare,)):
+            return True
+        if isinstance(e, ast.UnaryOp) and isinstance(e.op, (ast.Invert, ast.Not)):
+            return is_mask(e.operand, depth)
+        if isinstance(e, ast.BinOp) and isinstance(e.op, (ast.BitAnd, ast.BitOr)):
+            return is_mask(e.left, depth) and is_mask(e.right, depth)
+        if isinstance(e, ast.Call) and dotted(e.func) in (
+                'np.isnan', 'np.isfinite', 'np.flatnonzero', 'np.argsort', 'np.where',
+                'np.nonzero', 'np.arange', 'np.logical_and', 'np.logical_or', 'np.logical_not',
+                'np.isin', 'np.argpartition'):
+            return True
+        if isinstance(e, ast.Name) and depth < 4:
+            defs = cfg.defs_at(nid, e.id)
+            if not defs:
+                return False
+            for d in defs:
+                dn = cfg.nodes[d]
+                if not (dn.kind == 'stmt' and isinstance(dn.ast, ast.Assign) and
+                        is_mask(dn.ast.value, depth + 1)):
+                    return False
+            return True
+        return False
+    return is_mask(sl)
 
 
 def local_state_mutations(func):
